@@ -325,7 +325,8 @@ func c31Exec(c *Case) {
 			return sch + rest
 		}
 		type bodyInfo struct{ encLen, decLen int }
-		bodies := map[string]bodyInfo{} // sha256 hex of fetched data -> lengths
+		bodies := map[string]bodyInfo{}    // sha256 hex of fetched data -> lengths
+		cutBodies := map[string]bodyInfo{} // sha256 hex of a proper prefix of a served body -> (sent, kept)
 		var mroutes []string
 		for _, rt := range routes {
 			att := "*"
@@ -356,6 +357,12 @@ func c31Exec(c *Case) {
 				}
 				h := sha256.Sum256(bytes.Repeat([]byte{'b'}, n))
 				bodies[hex.EncodeToString(h[:])] = bodyInfo{n, n}
+				// every proper prefix of what the origin sent: if the fetcher hands one of those on,
+				// it accepted a body of n bytes after cutting it (only the oracle uses these)
+				for k := 0; k < n && n <= 8192; k++ {
+					hp := sha256.Sum256(bytes.Repeat([]byte{'b'}, k))
+					cutBodies[hex.EncodeToString(hp[:])] = bodyInfo{n, k}
+				}
 			case "z":
 				n, _ := strconv.Atoi(f[1])
 				zb := c31ZBody(n, f[2])
@@ -457,8 +464,13 @@ func c31Exec(c *Case) {
 				if bi, ok := bodies[m[1]]; ok {
 					out = fmt.Sprintf("fetched:%d", bi.decLen)
 					fetchedEnc, fetchedDec = bi.encLen, bi.decLen
+				} else if bi, ok := cutBodies[m[1]]; ok {
+					out = fmt.Sprintf("fetched:%d", bi.decLen)
+					fetchedEnc, fetchedDec = bi.encLen, bi.encLen
+					c.Oracle("truncated-body-accepted", fmt.Sprintf("the origin sent %d body bytes, the fetcher kept the first %d and reported success", bi.encLen, bi.decLen))
 				} else {
 					out = "fetched:unknown-body"
+					c.Oracle("fetched-bytes-are-not-what-the-origin-sent", "the fetch succeeded with bytes that are neither a served body nor its decoding")
 				}
 			}
 		}
@@ -618,6 +630,21 @@ func c31Gen(g *Gen) {
 	for i := 0; i < g.N(90, 1000); i++ {
 		c := pickCfg()
 		g.Case(line(c, Pick(r, []string{"nil", "https"}), "h/s", r.Chance(30), r.Chance(50), []string{"*|h/s|" + body(c)}))
+	}
+	// (c') over-cap bodies sent WITHOUT a Content-Length (only the streaming limit can catch them),
+	// directly and behind a redirect
+	for i := 0; i < g.N(40, 400); i++ {
+		c := pickCfg()
+		mf := c.maxfetch
+		if mf <= 0 {
+			c.maxfetch, mf = 64, 64
+		}
+		b := fmt.Sprintf("b:%d:chunked", Pick(r, []int{mf + 1, mf + 1, mf + 2, mf + 48, 2 * mf, mf, mf - 1}))
+		if r.Chance(30) {
+			g.Case(line(c, "nil", "h/s", r.Chance(30), r.Chance(50), []string{"*|h/s|r:h/big", "*|h/big|" + b}))
+		} else {
+			g.Case(line(c, "nil", "h/s", r.Chance(30), r.Chance(50), []string{"*|h/s|" + b}))
+		}
 	}
 	// (d) the pointer URL itself refused / nothing routed
 	for i := 0; i < g.N(20, 200); i++ {
